@@ -476,6 +476,49 @@ def normalise_parser(f):
             return node
     Rewrite().visit(fn)
     import copy
+    # `records = zip(...)` / `enumerate(...)` bound once and only iterated by one `for`: the loop iterates the call itself
+    assigns = {}
+    for st in ast.walk(fn):
+        if isinstance(st, ast.Assign) and len(st.targets) == 1 and isinstance(st.targets[0], ast.Name):
+            assigns.setdefault(st.targets[0].id, []).append(st)
+    loads = {}
+    for n in ast.walk(fn):
+        if isinstance(n, ast.Name) and isinstance(n.ctx, ast.Load):
+            loads.setdefault(n.id, []).append(n)
+    for st in ast.walk(fn):
+        if isinstance(st, ast.For) and isinstance(st.iter, ast.Name) and len(assigns.get(st.iter.id, [])) == 1 and len(loads.get(st.iter.id, [])) == 1:
+            v = assigns[st.iter.id][0].value
+            if isinstance(v, ast.Call) and ast.unparse(v.func) in ("zip", "enumerate"):
+                st.iter = copy.deepcopy(v)
+    # `for a, b in zip(data[0::2], data[1::2])`: the strided slices written inline are named first (`_zs0 = data[0::2]`), the idiom
+    # the rules read
+    counter = [0]
+
+    def hoist(body):
+        k = 0
+        while k < len(body):
+            st = body[k]
+            for fld in ("body", "orelse", "finalbody"):
+                sub = getattr(st, fld, None)
+                if isinstance(sub, list) and sub and isinstance(sub[0], ast.stmt):
+                    hoist(sub)
+            for h in getattr(st, "handlers", ()):
+                hoist(h.body)
+            if isinstance(st, ast.For) and isinstance(st.iter, ast.Call) and ast.unparse(st.iter.func) == "zip" and not st.iter.keywords:
+                new = []
+                for j, a in enumerate(st.iter.args):
+                    if isinstance(a, ast.Subscript) and isinstance(a.value, ast.Name) and isinstance(a.slice, ast.Slice):
+                        nm = f"_zs{counter[0]}"
+                        counter[0] += 1
+                        asg = ast.Assign(targets=[ast.Name(id=nm, ctx=ast.Store())], value=a)
+                        ast.copy_location(asg, a)
+                        ast.copy_location(asg.targets[0], a)
+                        new.append(asg)
+                        st.iter.args[j] = ast.copy_location(ast.Name(id=nm, ctx=ast.Load()), a)
+                body[k:k] = new
+                k += len(new)
+            k += 1
+    hoist(fn.body)
     pre = []
     for g, v in consts.items():
         a = ast.Assign(targets=[ast.Name(id=g, ctx=ast.Store())], value=copy.deepcopy(v))
